@@ -12,6 +12,11 @@ CLAIMED = {
          "Every generated message of all 24 types is encoded by the real codec and compared byte-for-byte with an independently written layout table, decoded back from both byte strings, and over-long error messages are checked for decodable truncation; registry rows are enumerated completely. Holds on the K cases reported in evidence, no more.",
          "Trusted base: harness/wire layout table (transcribed from the Seata 1.x Java serializer). Values are valid UTF-8; str16 fields up to 65535 bytes.",
          "DESIGN.md §4 C12"),
+ "C13": ("exploration",
+         "runtime monitor over a replica of getty's receive loop driving the real RpcPackageHandler.Read; ground truth from an independent framer; exhaustive cut positions for short streams",
+         "Generated frame streams are fed to the real frame reader under every 2-cut, byte-wise feed, truncated prefixes (streams <= 400 bytes), every 3-cut (<= 70 bytes), boundary cuts and random partitions; delivered messages, consumed lengths, need-more answers, errors, panics and zero-progress returns are compared with the independent framer's ground truth; head maps are round-tripped through the real Write and Read.",
+         "Trusted base: harness/wire framer; the loop replica follows dubbo-getty v1.5.0 handleTCPPackage. Garbage input is only required not to panic or spin.",
+         "DESIGN.md §4 C13"),
 }
 
 NOT_YET = "check not implemented yet in this revision of the framework (work in progress; see DESIGN.md §4 for the planned monitor)"
